@@ -890,8 +890,15 @@ func (e *Engine) addGlobalLits(c *Term) {
 	if e.globalLits == nil {
 		e.globalLits = map[int]bool{}
 	}
-	for k, v := range guardLits(c) {
+	ls := guardLitSet(c)
+	for k, v := range ls.truth {
 		e.globalLits[k] = v
+	}
+	if e.globalSubst == nil {
+		e.globalSubst = map[int]*Term{}
+	}
+	for k, v := range ls.subst {
+		e.globalSubst[k] = v
 	}
 	e.globalLitV++
 	learnBounds(c)
